@@ -13,6 +13,7 @@ import BtcVerif.Model.Keys
 import BtcVerif.Proofs.Der
 import BtcVerif.Proofs.Keys
 import BtcVerif.Proofs.Ecdsa
+import BtcVerif.Proofs.Sec1
 
 namespace BtcVerif.C13
 open BtcVerif.Crypto
@@ -129,12 +130,30 @@ theorem lowS_spec (s : Nat) (h0 : 0 < s) (hn : s < Secp256k1.n) :
   unfold Spec.Keys.lowS Spec.Keys.LowS Spec.Keys.halfOrder Spec.Keys.n
   refine ⟨?_, ?_, ?_, ?_, ?_⟩ <;> (repeat' split) <;> omega
 
-/-- `signature_to_low_s` on a strict DER signature with 0 < s < n returns the strict DER encoding of
+/-- `signatureToLowS_spec`: for ANY implementation of the three OpenSSL calls with `d2i sig = (r, s)`, the
+    order of secp256k1 and an encoder that writes at least one byte, the steps of `signature_to_low_s`
+    (`BN_rshift1`, `BN_cmp … > 0`, `BN_sub`, `i2d`, the `derlen == 0` test) return the encoding of
+    `(r, lowS s)` — not `None`, no exception -/
+theorem signatureToLowS_spec (C : Model.Keys.SigCodec) (sig : Bytes) (r s : Nat)
+    (hd : C.d2i sig = some (r, s)) (ho : C.order = Secp256k1.n) (hi : ∀ r s, (C.i2d r s).length ≠ 0) :
+    Model.Keys.signatureToLowSWith C sig = .ok (some (C.i2d r (Spec.Keys.lowS s))) := by
+  unfold Model.Keys.signatureToLowSWith Spec.Keys.lowS Spec.Keys.halfOrder Spec.Keys.n
+  rw [hd]
+  have hh : Secp256k1.n >>> 1 = Secp256k1.n / 2 := by rw [Nat.shiftRight_eq_div_pow]
+  simp only [ho, hh, hi, if_false]
+
+/-- under the contract the library is used with (strict DER both ways): the strict DER encoding of
     `(r, lowS s)` -/
-theorem signatureToLowS_spec (sig : Bytes) (r s : Nat) (h : Secp256k1.derDecodeStrict sig = some (r, s)) :
-    Model.Keys.signatureToLowS sig = some (Secp256k1.derEncode r (Spec.Keys.lowS s)) := by
-  unfold Model.Keys.signatureToLowS Spec.Keys.lowS Spec.Keys.halfOrder Spec.Keys.n
-  rw [h]
+theorem signatureToLowS_reference (sig : Bytes) (r s : Nat) (h : Secp256k1.derDecodeStrict sig = some (r, s)) :
+    Model.Keys.signatureToLowS sig = .ok (some (Secp256k1.derEncode r (Spec.Keys.lowS s))) :=
+  signatureToLowS_spec Model.Keys.SigCodec.reference sig r s h rfl
+    (fun r s => by show (Secp256k1.derEncode r s).length ≠ 0; rw [derEncode_length]; omega)
+
+/-- nothing parsed: the code goes on to `BN_cmp` with a NULL operand — recorded as a crash outcome, not
+    totalised (off the domain: `sign` only passes what `ECDSA_sign` wrote) -/
+theorem signatureToLowS_unparsed (C : Model.Keys.SigCodec) (sig : Bytes) (hd : C.d2i sig = none) :
+    Model.Keys.signatureToLowSWith C sig = .error (.py "SIGSEGV") := by
+  simp [Model.Keys.signatureToLowSWith, hd]
 
 /-- `sign_spec`: whatever strict DER signature `(r, s)` with r < 2^256, 0 < s < n `ECDSA_sign` returns,
     `CECKey.sign` returns a strict DER signature of `(r, s')` with `s' ∈ {s, n − s}` low — no
@@ -156,7 +175,7 @@ theorem sign_spec (hash raw : Bytes) (r s : Nat) (hh : hash.length = 32)
     · have e := der_strict raw r s hraw
       have : Spec.Keys.lowS s = s := hfix hl
       simp [hl, this, e, bind, Except.bind, pure, Except.pure]
-    · simp [hl, bind, Except.bind, pure, Except.pure, signatureToLowS_spec raw r s hraw]
+    · simp [hl, bind, Except.bind, signatureToLowS_reference raw r s hraw]
   · rw [isLowDer_iff_encode r _ hr hls]
     simp [hlow]
 
@@ -167,7 +186,8 @@ theorem sign_hash_length (hash raw : Bytes) (hh : hash.length ≠ 32) :
 
 /-! ### WIF payload -/
 
-/-- the payload built by `from_secret_bytes` is the WIF layout `secret ‖ 01?` -/
+/-- DEFINITIONAL (`rfl`): the model's payload function is the same term as the Spec's `secret ‖ 01?`;
+    recorded only so that the name exists — that the library builds this payload is T2 (`c13.key`) -/
 theorem wifPayload_eq_spec (secret : Bytes) (c : Bool) :
     Model.Keys.wifPayload secret c = Spec.Keys.wifPayload secret c := rfl
 
@@ -192,10 +212,76 @@ theorem wif_wrong_version (chainVer ver : Nat) (payload : Bytes) (h : ver ≠ ch
     Model.Keys.wifParse chainVer ver payload = .error .b58err := by
   simp [Model.Keys.wifParse, h]
 
-/-- the public key attached to a parsed secret is the reference point `secret·G` in the encoding the
-    flag selects (OpenSSL contract of Model/Keys.lean) -/
+/-- DEFINITIONAL (`rfl`): `pubOfSecret` *is* the reference `secret·G` encoding — this states the OpenSSL
+    contract of Model/Keys.lean, it proves nothing about the library; "public key = k·G" is T2 only -/
 theorem pub_eq_reference (secret : Bytes) (c : Bool) :
     Model.Keys.pubOfSecret secret c = Secp256k1.encode (Secp256k1.mul (beNat secret) Secp256k1.G) c := rfl
+
+/-! ### SEC 1 public-key strings: what the reference `decode` (the Spec of `is_fullyvalid`) accepts -/
+
+/-- `decode_encode_point` (uncompressed form): decoding the 65-byte encoding of an affine point that
+    satisfies y² = x³ + 7 with canonical coordinates returns the point -/
+theorem decode_encode_point (x y : Nat) (h : Secp256k1.onCurveXY x y = true) :
+    Secp256k1.decode (Secp256k1.encode (.aff x y) false) = some (.aff x y) :=
+  decode_encode_uncompressed x y h
+
+/-- `decode_some_iff`, tags 04 / 06 / 07: accepted exactly when 64 coordinate bytes follow, the
+    coordinates are canonical and satisfy the curve equation, and for the hybrid tags the parity of y is
+    the tag's; the result is that point -/
+theorem decode_some_iff_uncompressed (tag : UInt8) (body : Bytes) (P : Secp256k1.Point)
+    (ht : tag.toNat = 4 ∨ tag.toNat = 6 ∨ tag.toNat = 7) :
+    Secp256k1.decode (tag :: body) = some P ↔
+      body.length = 64 ∧ P = .aff (beNat (body.take 32)) (beNat (body.drop 32)) ∧
+      Secp256k1.onCurve P = true ∧ (tag.toNat = 4 ∨ ((beNat (body.drop 32)) % 2 = 1 ↔ tag.toNat = 7)) :=
+  decode_uncompressed_iff tag body P ht
+
+/-- tags 02 / 03, soundness: an accepted string has 32 abscissa bytes and the result is a point with that
+    abscissa on the curve whose ordinate parity is the tag's … -/
+theorem decode_compressed_sound (tag : UInt8) (body : Bytes) (P : Secp256k1.Point)
+    (ht : tag.toNat = 2 ∨ tag.toNat = 3) (h : Secp256k1.decode (tag :: body) = some P) :
+    body.length = 32 ∧ ∃ y, P = .aff (beNat body) y ∧ Secp256k1.onCurve P = true ∧ (y % 2 = 1 ↔ tag.toNat = 3) :=
+  BtcVerif.decode_compressed_sound tag body P ht h
+
+/-- … and it is the compressed encoding of that point: accepted strings are encodings of curve points -/
+theorem encode_decode_compressed (tag : UInt8) (body : Bytes) (P : Secp256k1.Point)
+    (ht : tag.toNat = 2 ∨ tag.toNat = 3) (h : Secp256k1.decode (tag :: body) = some P) :
+    Secp256k1.encode P true = tag :: body :=
+  BtcVerif.encode_decode_compressed tag body P ht h
+
+/-- no other first byte and no empty string is accepted -/
+theorem decode_bad_tag (bs : Bytes) (h : ∀ tag body, bs = tag :: body → tag.toNat ∉ [2, 3, 4, 6, 7]) :
+    Secp256k1.decode bs = none := by
+  cases bs with
+  | nil => rfl
+  | cons tag body =>
+    have := h tag body rfl
+    simp at this
+    obtain ⟨h2, h3, h4, h6, h7⟩ := this
+    simp [Secp256k1.decode, h2, h3, h4, h6, h7]
+
+-- UNPROVED (full statement): completeness for the compressed form,
+--
+--   theorem decode_encode_point_compressed (x y : Nat) (h : Secp256k1.onCurveXY x y = true) :
+--       Secp256k1.decode (Secp256k1.encode (.aff x y) true) = some (.aff x y)
+--   theorem decode_some_iff_compressed (tag : UInt8) (body : Bytes) (ht : tag.toNat = 2 ∨ tag.toNat = 3) :
+--       (∃ P, Secp256k1.decode (tag :: body) = some P) ↔
+--         body.length = 32 ∧ beNat body < Secp256k1.p ∧ ∃ y, y < Secp256k1.p ∧
+--           y * y % Secp256k1.p = (beNat body * beNat body % Secp256k1.p * beNat body + 7) % Secp256k1.p
+--
+-- The direction "a square has the root a^((p+1)/4)" is Euler's criterion for the prime p ≡ 3 (mod 4); it
+-- needs the primality of the 256-bit p and an invariant of the `powMod` loop, neither of which is
+-- available here.  Soundness (above) and both directions for 04/06/07 are proved; the compressed
+-- direction is covered by the correspondence run (`c13.fullyvalid`, about half of random x have no y).
+--
+-- UNPROVED (full statement): the twin law for the executable formulas,
+--
+--   theorem verify_lowS_twin_concrete (Q : Secp256k1.Point) (e r s : Nat) (hs : 0 < s ∧ s < Secp256k1.n) :
+--       Secp256k1.verify Q e r s = Secp256k1.verify Q e r (Secp256k1.n - s)
+--
+-- x(−R) = x(R) is immediate, but the step u₁'·G + u₂'·Q = −(u₁·G + u₂·Q) for u' = n − u is the group law
+-- ((n − u)·P = −(u·P) and distributivity over the Jacobian addition), which is exactly what is not
+-- proved about Crypto/Secp256k1.lean.  Proved abstractly (`verify_lowS_twin`); exercised by the
+-- verification matrix (variants 2 and 13 of `c13.matrix`, and `c14.verify` with the flipped-parity twin).
 
 /-! ### ECDSA, abstractly (any prime-order module `E` over `ZMod q` with an even conversion `f`) -/
 
